@@ -32,7 +32,7 @@ if not os.path.isdir(wt) and os.path.exists(f'{dst}/meta.json'):
     try:
         for p in props:
             t0 = time.time()
-            rc_c, oc = run(f"./bin/gosym run --prop {p} --tier quick --no-evidence", cwd='/verif', timeout=3600)
+            rc_c, oc = run(f"./bin/gosym run --prop {p} --tier quick --no-evidence " + os.environ.get('SEED_GOSYM_ARGS',''), cwd='/verif', timeout=3600)
             viol = [l.strip() for l in oc.splitlines() if l.startswith('VIOLATION') or l.strip().startswith('harness=')]
             res[p] = {'exit': rc_c, 'wall_s': round(time.time()-t0,1), 'violations': viol[:12], 'tail': oc.splitlines()[-1] if oc else ''}
     finally:
@@ -90,7 +90,7 @@ if meta['confirmed']:
         try:
             for p in props:
                 t0 = time.time()
-                rc_c, oc = run(f"./bin/gosym run --prop {p} --tier quick --no-evidence", cwd='/verif', timeout=3600)
+                rc_c, oc = run(f"./bin/gosym run --prop {p} --tier quick --no-evidence " + os.environ.get('SEED_GOSYM_ARGS',''), cwd='/verif', timeout=3600)
                 viol = [l.strip() for l in oc.splitlines() if l.startswith('VIOLATION') or l.strip().startswith('harness=')]
                 res[p] = {'exit': rc_c, 'wall_s': round(time.time()-t0,1), 'violations': viol[:12], 'tail': oc.splitlines()[-1] if oc else ''}
         finally:
